@@ -555,7 +555,9 @@ fn gen_case(rng: &mut Rng, n: u64) -> Vec<String> {
 #[cfg(feature = "outport-v2")]
 mod pure {
     use super::*;
-    use ractor::port::output::verif_hooks::{dispatch_dying, Item, SubSpec};
+    use ractor::port::output::verif_hooks::{Item, SubSpec};
+    // the REAL `Filtering` subscriber (what `OutputPort::subscribe` creates) around a fake actor reference
+    use ractor::port::output::verif_hooks2::dispatch_filtering as dispatch_dying;
 
     fn kind_ix(k: &str) -> u8 {
         CONVS.iter().position(|c| *c == k).unwrap() as u8
